@@ -64,6 +64,15 @@ CLAIMED["C02"] = ("4/C02", "The calculators' leap rule, year length, year start,
                   "observed at the calculator level (LocalDate composes these through C01's lemmas); Hebrew year-length legality uses year kinds "
                   "tabulated from the real code per 180-year window; Persian arithmetic before 475, Persian astronomical, Um Al Qura and Badi have no "
                   "published arithmetic and are outside the property; quick runs seeded subsets of months / cycle positions / windows")
+CLAIMED["C06"] = ("4/C06", "Against an INDEPENDENT interpreter of Tzdb.nzd written from the format description (props/nzdref.py, plain ints and "
+                  "plain calendar arithmetic): every reader primitive (varint count, zig-zag, compact milliseconds / offset, transition "
+                  "markers / hour deltas / minute counts / raw ticks, pooled strings) and the yearly-rule decoder on every byte string of <= 4 "
+                  "(thorough 5) bytes; the yearly-rule evaluator for every rule shape and every year (century windows) and the rule offset per "
+                  "mode; the provider's cached zone at EVERY instant within 40 days of reference transitions (stored and rule-generated, "
+                  "including transitions on cache-block boundaries); fixed-offset ids UTC+/-hh[:mm[:ss]] for all two-digit fields.",
+                  "the walk of the whole file (id list, aliases, all 61 755 intervals to 2200, validate()) is a concrete premise over finite data, "
+                  "not a solver verdict; windows and rule instances are seeded subsets in quick; the second database file under tests/ is not "
+                  "interpreted; rule-generated transitions are compared up to 2100 symbolically (to 9999 for every 10th zone in the thorough premise)")
 CLAIMED["C11"] = ("4/C11", "Real OffsetDateTime/OffsetDate/OffsetTime/Instant code over the DayCalendar abstraction (dates are day numbers; "
                   "contract C01 + C09): construction local = instant + offset, to_instant inverse, with_offset (both double day carries), "
                   "with_calendar, +/- Duration in all six spellings (instant moves exactly; offset and calendar retained), plus_<unit>, "
